@@ -190,6 +190,19 @@ def model_out(case, reply):
     return reply['out']
 
 
+def reconcile(case, view, mo):
+    """op texconsts reads some literals off the CODE OBJECTS of the functions (co_consts): which function body holds a literal is a private
+    detail of the tree under test.  A literal that cannot be read unambiguously there (a behaviour-preserving refactoring moved it into a
+    helper, or made another literal of the same type appear) is dropped from both sides instead of being compared as "different": the
+    behaviour it stands for is compared by the texall / texsplit families on every run anyway."""
+    if case.get('op') != 'texconsts' or not isinstance(view, dict) or not isinstance(mo, dict):
+        return view, mo
+    unreadable = [k for k, v in view.items() if isinstance(v, dict) and any(str(x).startswith('ambiguous ') for x in v)]
+    if not unreadable:
+        return view, mo
+    return ({k: v for k, v in view.items() if k not in unreadable}, {k: v for k, v in mo.items() if k not in unreadable})
+
+
 def _is_err(x):
     return isinstance(x, dict) and 'error' in x
 
